@@ -411,6 +411,14 @@ def run_chain(rng, counters, violations):
                 # an operation on generated input may be rejected (ValueError, KeyError, IndexError, TypeError), not like this
                 violations.append({"what": "C14 %s raised %s: %s" % (desc, type(exc).__name__, str(exc)[:150]), "log": list(log)})
                 return derived_ok
+            # which operations may be refused on generated input, and how: positions / names that do not exist (rows),
+            # columns that are not one-dimensional (at, iter, concatenate); everything else here is legal on every table
+            allowed = {"rows": (IndexError, KeyError), "rows2": (IndexError, KeyError), "select": (IndexError, KeyError),
+                       "at": (ValueError,), "iter": (ValueError,), "concat": (ValueError,)}
+            if not isinstance(exc, allowed.get(kind, ())):
+                violations.append({"what": "C14 %s raised %s: %s (a legal operation on this table)" % (desc, type(exc).__name__, str(exc)[:150]),
+                                   "log": list(log)})
+                return derived_ok
             counters.setdefault("exceptions", {})
             key = "%s:%s" % (kind, type(exc).__name__)
             counters["exceptions"][key] = counters["exceptions"].get(key, 0) + 1
